@@ -37,7 +37,7 @@ def sig_of(res):
 
 class C12(Prop):
     id = 'C12'
-    theorems = ['C12.history_free', 'C12.support_files_standalone', 'C12.build_is_a_function']
+    theorems = ['C12.history_free', 'C12.build_is_a_function', 'C12.support_files_standalone']
     proof_modules = ['DznProofs.C12']
     level_rule = ('histories of 2-12 builds in one interpreter over shared and distinct parsed models with valid and '
                   'invalid configurations; before/after deep structural snapshots of the parsed model and of the '
